@@ -31,3 +31,14 @@ package x
 //@   props C08 C13
 //@   modifies nothing
 //@   requires q != nil
+
+// ASSUMED (T6): Transactor().Transaction runs the callback inside a transaction, returns the
+// callback's error or a storage error, commits iff the callback returned nil. The callbacks are
+// closures with contracts of their own (error-returned, error classes); this contract is the
+// assume side of that split.
+//@ func interface.Transaction
+//@   trusted
+//@   requires f != nil
+//@   modifies db, wfailed
+//@   ensures[C05] committed-means-every-write-succeeded: (result == nil && !old(wfailed)) ==> !wfailed
+//@   ensures[C13] error-class: result != nil ==> clienterr(result) || wfailed
